@@ -24,10 +24,47 @@ type Tally = RefCell<Vec<String>>;
 fn tally(t: &Tally, key: &str) {
     t.borrow_mut().push(key.to_string());
 }
+thread_local! {
+    /// all tallied keys of the run, for the mask / skip ceilings judged at the end
+    static TOTALS: RefCell<std::collections::BTreeMap<String, u64>> = RefCell::new(Default::default());
+}
 fn flush(em: &mut Em, t: &Tally) {
     for k in t.borrow_mut().drain(..) {
         em.count(&k);
+        TOTALS.with(|m| *m.borrow_mut().entry(k).or_insert(0) += 1);
     }
+}
+
+/// Ceilings on what the run did NOT judge: columns / rows / fits whose clause is masked by an open finding
+/// (`sub_eps`, `sq_overflow`, `range_overflow`, `sq_underflow`, `floor=hit`) or skipped as ill-conditioned, as a
+/// share of everything the family decided.  The classes are computed from the *inputs*, so a change of linfa
+/// cannot move a case into them; what can is a change of the generator or of the class computation - this case
+/// then fails (oracle-only, clause `mask_ceiling`), like a coverage floor in the other direction.
+fn ceilings(em: &mut Em) {
+    let tot = TOTALS.with(|m| m.borrow().clone());
+    let sum = |pred: &dyn Fn(&str) -> bool| -> u64 { tot.iter().filter(|(k, _)| pred(k)).map(|(_, v)| *v).sum() };
+    let masked_key = |k: &str| k.ends_with(":sub_eps") || k.ends_with(":sq_overflow") || k.ends_with(":sq_underflow") || k.ends_with(":range_overflow");
+    // (family, predicate on the key, ceiling in percent)
+    let fams: [(&str, Box<dyn Fn(&str) -> bool>, u64); 5] = [
+        ("std", Box::new(|k: &str| k.contains(":std:unit_var") || k.contains(":std32:unit_var")), 15),
+        ("minmax", Box::new(|k: &str| k.contains(":range:")), 10),
+        ("maxabs", Box::new(|k: &str| k.contains(":maxabs:")), 10),
+        ("norm_l2", Box::new(|k: &str| k.contains(":unit:l2:")), 30),
+        ("whiten", Box::new(|k: &str| k.contains(":identity_cov")), 40),
+    ];
+    let mut rows = vec![];
+    for (name, fam, pct) in fams.iter() {
+        let all = sum(&|k| (k.starts_with("judged:") || k.starts_with("skipped:") || k.starts_with("masked:")) && fam(k));
+        let out = sum(&|k| fam(k) && (k.starts_with("skipped:") || k.starts_with("masked:") || (k.starts_with("judged:") && masked_key(k))));
+        rows.push((*name, all, out, *pct));
+    }
+    let op = format!("#ceilings {}", rows.iter().map(|(n, a, o, p)| format!("{}={}/{}<={}%", n, o, a, p)).collect::<Vec<_>>().join(" "));
+    em.case(op, |ctx| {
+        for (name, all, out, pct) in rows.iter() {
+            ctx.require(out * 100 <= all * pct, "mask_ceiling", &format!("family={}", name), || format!("{} of {} decided cases of family {} are masked by an open finding or skipped as ill-conditioned (ceiling {} %)", out, all, name, pct));
+        }
+        "-".to_string()
+    });
 }
 
 /// memory layout of a record matrix handed to linfa: C order, Fortran order, or a strided window
@@ -100,15 +137,23 @@ fn err_name(e: &PreprocessingError) -> &'static str {
 fn column(m: &Mat, j: usize) -> Vec<f64> {
     m.iter().map(|r| r[j]).collect()
 }
-/// two-pass statistics in f64: (mean, population sd, min, max, max |x|, all equal)
+/// two-pass statistics in f64: (mean, population sd, min, max, max |x|, all equal).  Columns of extreme
+/// magnitude are first scaled by a power of two (exact), so that the squares neither overflow nor underflow.
 fn stats(c: &[f64]) -> (f64, f64, f64, f64, f64, bool) {
+    let ma0 = c.iter().fold(0.0f64, |a, x| a.max(x.abs()));
+    let k = if ma0.is_finite() && ma0 > 0.0 && (ma0 > 1e100 || ma0 < 1e-100) { -(ma0.log2().floor() as i32) } else { 0 };
+    // two exact steps: 2^k itself may be out of range for |k| > 1023
+    let (k1, k2) = (k / 2, k - k / 2);
+    let sc = |x: f64| x * 2f64.powi(k1) * 2f64.powi(k2);
+    let un = |x: f64| x * 2f64.powi(-k1) * 2f64.powi(-k2);
+    let c: Vec<f64> = c.iter().map(|x| sc(*x)).collect();
     let n = c.len() as f64;
     let m = c.iter().sum::<f64>() / n;
     let v = c.iter().map(|x| (x - m) * (x - m)).sum::<f64>() / n;
     let mn = c.iter().cloned().fold(f64::INFINITY, f64::min);
     let mx = c.iter().cloned().fold(f64::NEG_INFINITY, f64::max);
     let ma = c.iter().fold(0.0f64, |a, x| a.max(x.abs()));
-    (m, v.sqrt(), mn, mx, ma, c.iter().all(|x| *x == c[0]))
+    (un(m), un(v.sqrt()), un(mn), un(mx), un(ma), c.iter().all(|x| *x == c[0]))
 }
 fn same_bits(a: &[f64], b: &[f64]) -> bool {
     a.len() == b.len() && a.iter().zip(b).all(|(x, y)| x.to_bits() == y.to_bits() || (x.is_nan() && y.is_nan()))
@@ -124,7 +169,7 @@ enum Stream {
 
 /// one column of `n` values. `eps` is the machine epsilon of the carrier the matrix is meant for.
 fn gen_column(rng: &mut Rng, n: usize, stream: Stream, eps: f64, em: &mut Em) -> Vec<f64> {
-    let kind = rng.below(if stream == Stream::Lattice { 7 } else { 13 });
+    let kind = rng.below(if stream == Stream::Lattice { 7 } else { 14 });
     match kind {
         0 => {
             em.count("col:constant");
@@ -164,6 +209,13 @@ fn gen_column(rng: &mut Rng, n: usize, stream: Stream, eps: f64, em: &mut Em) ->
             let k = *rng.pick(&[4i32, 6, 8, 12, 16, 20, 24, 30]);
             let sc = eps * 2f64.powi(k);
             (0..n).map(|_| sc * (2.0 * rng.unit() - 1.0)).collect()
+        }
+        13 => {
+            // finite, far beyond sqrt(MAX) of the carrier (audit 2, item 3): the squares inside ndarray's
+            // Welford variance overflow; sums of up to 80 such values stay finite
+            em.count("col:huge");
+            let m = if eps > 1e-10 { *rng.pick(&[1e20, 1e30, 1e35]) } else { *rng.pick(&[1e155, 1e200, 1e300]) };
+            (0..n).map(|_| rng.range(-32, 32) as f64 / 4.0 * m).collect()
         }
         _ => {
             em.count("col:generic");
@@ -223,6 +275,9 @@ fn gen_shape(rng: &mut Rng, big: bool) -> (usize, usize) {
         0
     } else if big && rng.chance(1, 6) {
         rng.range(9, 40) as usize
+    } else if rng.chance(1, 25) {
+        // audit 2, item 5: far beyond the unit tests' sizes also in the quick tier (a size-gated path)
+        rng.range(25, 80) as usize
     } else if rng.chance(1, 10) {
         // beyond ndarray's 8-way unrolling also in the quick tier
         rng.range(9, 24) as usize
@@ -231,6 +286,8 @@ fn gen_shape(rng: &mut Rng, big: bool) -> (usize, usize) {
     };
     let p = if rng.chance(1, 40) {
         0
+    } else if rng.chance(1, 30) {
+        rng.range(9, 20) as usize
     } else if rng.chance(1, 10) {
         rng.range(5, 8) as usize
     } else {
@@ -314,7 +371,7 @@ fn spread_class(all_equal_or_zero: bool, v: f64, eps: f64) -> &'static str {
 }
 
 /// the statement's postconditions on the transformed training data (`yf` = transform(fit data))
-fn oracle_lin(ctx: &mut Ctx, tag: &str, lin: Lin, fit: &Mat, p: usize, yf: &Mat, e: f64, t: &Tally) {
+fn oracle_lin(ctx: &mut Ctx, tag: &str, lin: Lin, fit: &Mat, p: usize, yf: &Mat, e: f64, fmax: f64, t: &Tally) {
     let n = fit.len();
     if n == 0 {
         return;
@@ -327,7 +384,10 @@ fn oracle_lin(ctx: &mut Ctx, tag: &str, lin: Lin, fit: &Mat, p: usize, yf: &Mat,
         let nn = n as f64;
         match lin {
             Lin::Std(wm, ws) => {
-                let cls = spread_class(alleq, sd, e);
+                // deviations from the mean beyond sqrt(MAX)/32 of the carrier: the squares in ndarray's Welford
+                // recurrence overflow, the standard deviation is +inf and the scale 1/inf = 0 (open finding)
+                let dev = c.iter().fold(0.0f64, |a, x| a.max((x - m).abs()));
+                let cls = if !alleq && dev > fmax.sqrt() / 32.0 { "sq_overflow" } else { spread_class(alleq, sd, e) };
                 let class = format!("{}:wm={}:ws={}:column={}", tag, wm as u8, ws as u8, cls);
                 if alleq {
                     // constant columns are only centred
@@ -336,7 +396,7 @@ fn oracle_lin(ctx: &mut Ctx, tag: &str, lin: Lin, fit: &Mat, p: usize, yf: &Mat,
                     ctx.require(y.iter().all(|v| (v - want).abs() <= tol), "constant_only_centred", &class, || format!("column {} constant {:e}: output {:?}, want {:e} (tol {:e})", j, c[0], y, want, tol));
                     continue;
                 }
-                let s_exp = if ws && cls == "regular" { 1.0 / sd } else { 1.0 };
+                let s_exp = if ws && cls != "sub_eps" { 1.0 / sd } else { 1.0 };
                 if wm {
                     let tol = 16.0 * e * (ma + m.abs()) * s_exp + f64::MIN_POSITIVE;
                     ctx.require(ym.abs() <= tol, "standard_zero_mean", &class, || format!("column {}: mean of output {:e} (tol {:e}); input {:?}", j, ym, tol, c));
@@ -357,13 +417,18 @@ fn oracle_lin(ctx: &mut Ctx, tag: &str, lin: Lin, fit: &Mat, p: usize, yf: &Mat,
                         }
                         ctx.require((ysd * ysd - 1.0).abs() <= tol, "standard_unit_var", &class, || format!("column {}: variance of output {:e} (tol {:e}); input {:?}", j, ysd * ysd, tol, c));
                     }
+                } else if cls == "sq_overflow" {
+                    // the same bound divided by 2 sd (the variances themselves are out of range in f64)
+                    let tol = 32.0 * e * (sd + ma + m.abs());
+                    ctx.require((ysd - sd).abs() <= tol, "no_std_keeps_spread", &class, || format!("column {}: sd of output {:e}, of input {:e} (tol {:e})", j, ysd, sd, tol));
                 } else {
                     let tol = 64.0 * e * (sd * sd + (ma + m.abs()) * sd);
                     ctx.require((ysd * ysd - sd * sd).abs() <= tol, "no_std_keeps_spread", &class, || format!("column {}: variance of output {:e}, of input {:e} (tol {:e})", j, ysd * ysd, sd * sd, tol));
                 }
             }
             Lin::MinMax(lo, hi) => {
-                let cls = spread_class(alleq, mx - mn, e);
+                // max - min beyond MAX of the carrier: 1 / inf = 0 and (x - min) * 0 with x - min = inf is NaN (open finding)
+                let cls = if !alleq && !((mx - mn) <= fmax) { "range_overflow" } else { spread_class(alleq, mx - mn, e) };
                 let class = format!("{}:column={}", tag, cls);
                 if alleq {
                     // the statement is silent on constant columns (the model / correspondence pins `lo`)
@@ -434,10 +499,29 @@ struct Form {
     via: &'static str,
     layf: Lay,
     layx: Lay,
+    /// the dataset handed to `fit` carries sample weights (1, 2, .., 5, 1, ..): the fit must not depend on them
+    wts: bool,
+}
+fn fit_weights(n: usize) -> Vec<u64> {
+    (0..n).map(|i| (i % 5 + 1) as u64).collect()
 }
 impl Form {
     fn toks(&self) -> String {
         format!("via={} layf={} layx={}", self.via, self.layf.tag(), self.layx.tag())
+    }
+    /// the weights token of the request (empty = no weights)
+    fn wtok(&self, n: usize) -> String {
+        format!("wts={}", if self.wts { list(fit_weights(n).iter(), |v| v.to_string()) } else { String::new() })
+    }
+}
+/// `DatasetBase::from(records)`, with the sample weights of the form
+fn fit_dataset<R: ndarray::Data<Elem = F>, F: Float>(recs: ndarray::ArrayBase<R, ndarray::Ix2>, form: Form) -> DatasetBase<ndarray::ArrayBase<R, ndarray::Ix2>, Array1<()>> {
+    let n = recs.nrows();
+    let ds = DatasetBase::from(recs);
+    if form.wts {
+        ds.with_weights(Array1::from_iter(fit_weights(n).into_iter().map(|v| v as f32)))
+    } else {
+        ds
     }
 }
 
@@ -448,9 +532,9 @@ fn fit_lin<F: Float>(lin: Lin, form: Form, fit: &Mat, pf: usize) -> Result<Linea
             // a view: `Fit` is implemented for every `Data` storage
             let b = backing::<F>(fit, pf);
             let v = b.slice(s![1..(2 * fit.len() + 1);2, 1..(pf + 1)]);
-            params.fit(&DatasetBase::from(v))
+            params.fit(&fit_dataset(v, form))
         }
-        lay => params.fit(&DatasetBase::from(to_arr_lay::<F>(fit, pf, lay))),
+        lay => params.fit(&fit_dataset(to_arr_lay::<F>(fit, pf, lay), form)),
     }
 }
 
@@ -460,21 +544,27 @@ fn fit_lin<F: Float>(lin: Lin, form: Form, fit: &Mat, pf: usize) -> Result<Linea
 fn oracle_affine<F: Float>(ctx: &mut Ctx, class: &str, lin: Lin, sc: &LinearScaler<F>, x: &Mat, y: &Mat, e: f64) {
     ctx.require(*sc.method() == lin.method::<F>(), "fixed_affine_map", class, || format!("method() reports {} for a scaler fitted as {:?}", sc.method(), lin));
     let tiny = 4.0 * F::min_positive_value().to_f64().unwrap();
-    let off: Vec<f64> = sc.offsets().iter().map(|v| v.to_f64().unwrap()).collect();
-    let scl: Vec<f64> = sc.scales().iter().map(|v| v.to_f64().unwrap()).collect();
+    // evaluated in the carrier, so that an intermediate overflow (x - offset, or the product) is the same event
+    // on both sides; non-finite values must then agree as such
+    let f = |v: F| v.to_f64().unwrap();
     for (i, (r, o)) in x.iter().zip(y.iter()).enumerate() {
-        for j in 0..r.len().min(off.len()) {
-            let core = (r[j] - off[j]) * scl[j];
+        for j in 0..r.len().min(sc.offsets().len()) {
+            let (off, scl) = (sc.offsets()[j], sc.scales()[j]);
+            let core = (F::cast(r[j]) - off) * scl;
             let (want, mag) = match sc.method() {
-                ScalingMethod::Standard(false, _) => (core + off[j], core.abs() + off[j].abs()),
-                ScalingMethod::MinMax(lo, hi) => {
-                    let (lo, hi) = (lo.to_f64().unwrap(), hi.to_f64().unwrap());
-                    (core * (hi - lo) + lo, (core * (hi - lo)).abs() + lo.abs())
-                }
-                _ => (core, core.abs()),
+                ScalingMethod::Standard(false, _) => (f(core + off), f(core).abs() + f(off).abs()),
+                ScalingMethod::MinMax(lo, hi) => (f(core * (*hi - *lo) + *lo), f(core * (*hi - *lo)).abs() + f(*lo).abs()),
+                _ => (f(core), f(core).abs()),
             };
             let tol = 8.0 * e * mag + tiny;
-            ctx.require((o[j] - want).abs() <= tol, "fixed_affine_map", class, || format!("cell ({}, {}): transform gives {:e}, (x - offset) * scale [...] from the accessors gives {:e} (tol {:e})", i, j, o[j], want, tol));
+            let ok = if want.is_nan() || o[j].is_nan() {
+                want.is_nan() && o[j].is_nan()
+            } else if want.is_infinite() || o[j].is_infinite() {
+                want == o[j]
+            } else {
+                (o[j] - want).abs() <= tol
+            };
+            ctx.require(ok, "fixed_affine_map", class, || format!("cell ({}, {}): transform gives {:e}, (x - offset) * scale [...] from the accessors gives {:e} (tol {:e})", i, j, o[j], want, tol));
         }
     }
 }
@@ -498,7 +588,7 @@ fn run_lin<F: Float>(ctx: &mut Ctx, tag: &str, lin: Lin, form: Form, fit: &Mat, 
     let fa: Array2<F> = to_arr_lay(fit, pf, form.layf);
     let fm = to_mat(&fa);
     let yf = sc.transform(fa);
-    oracle_lin(ctx, tag, lin, &fm, pf, &to_mat(&yf), e, t);
+    oracle_lin(ctx, tag, lin, &fm, pf, &to_mat(&yf), e, F::max_value().to_f64().unwrap(), t);
     let offsets = sc.offsets().iter().map(|v| v.to_f64().unwrap()).collect();
     let scales = sc.scales().iter().map(|v| v.to_f64().unwrap()).collect();
     let xa: Array2<F> = to_arr_lay(x, px, form.layx);
@@ -517,15 +607,38 @@ fn run_lin<F: Float>(ctx: &mut Ctx, tag: &str, lin: Lin, form: Form, fit: &Mat, 
 fn op_lin(em: &mut Em, rng: &mut Rng, lin: Lin, stream: Stream, f32_too: bool) {
     let big = em.thorough();
     let (nf, p) = gen_shape(rng, big);
-    let form = Form { via: gen_via(rng, lin), layf: gen_lay(rng), layx: gen_lay(rng) };
+    let form = Form { via: gen_via(rng, lin), layf: gen_lay(rng), layx: gen_lay(rng), wts: rng.chance(1, 3) };
     // ndarray sums a contiguous column (a single column, or any column of a Fortran-order matrix) with an
     // 8-way unrolled kernel: with n >= 8 its rounding differs from the sequential model unless the sums
     // are exact (lattice values)
     let unrolled = nf >= 8 && (p == 1 || form.layf == Lay::F);
     let stream = if unrolled && matches!(lin, Lin::Std(..)) { Stream::Lattice } else { stream };
-    let fit = gen_matrix(rng, nf, p, stream, f64::EPSILON, em);
+    let mut fit = gen_matrix(rng, nf, p, stream, f64::EPSILON, em);
+    // min-max only: a column spanning more than MAX of the carrier (max - min overflows); audit 2, item 3
+    let full_range = matches!(lin, Lin::MinMax(..)) && stream == Stream::Generic && nf >= 2 && p >= 1 && rng.chance(1, 10);
+    let full_col = rng.below(p.max(1));
+    let inject_full_range = |m: &mut Mat, top: f64, rng: &mut Rng| {
+        for (i, r) in m.iter_mut().enumerate() {
+            r[full_col] = match i {
+                0 => top,
+                1 => -top,
+                _ => *rng.pick(&[0.5, -0.5, 0.25, 1.0, 0.0]) * top,
+            };
+        }
+    };
+    if full_range {
+        em.count("col:full_range");
+        inject_full_range(&mut fit, 1.5e308, rng);
+    }
     let px = if rng.chance(1, 25) { p + 1 } else { p };
-    let nx = if rng.chance(1, 12) { 0 } else { rng.range(1, 6) as usize };
+    // unseen batches larger than the training data too (audit 2, item 5: size-gated paths)
+    let nx = if rng.chance(1, 12) {
+        0
+    } else if rng.chance(1, 10) {
+        rng.range(7, 48) as usize
+    } else {
+        rng.range(1, 6) as usize
+    };
     let x = if px == p && rng.chance(1, 4) { fit.clone() } else { gen_matrix(rng, nx, px, stream, f64::EPSILON, em) };
     let sel = gen_sel(rng, x.len());
     em.count(if stream == Stream::Lattice { "stream:lattice" } else { "stream:generic" });
@@ -534,7 +647,10 @@ fn op_lin(em: &mut Em, rng: &mut Rng, lin: Lin, stream: Stream, f32_too: bool) {
         Lin::MinMax(lo, hi) => format!("minmax lo={} hi={}", hex64(lo), hex64(hi)),
         Lin::MaxAbs => "maxabs".to_string(),
     };
-    let op = format!("{} {} pf={} fit={} px={} x={}", head, form.toks(), p, show_mat(&fit), px, show_mat(&x));
+    if form.wts {
+        em.count("fit:weighted_dataset");
+    }
+    let op = format!("{} {} {} pf={} fit={} px={} x={}", head, form.toks(), form.wtok(nf), p, show_mat(&fit), px, show_mat(&x));
     let approx = matches!(lin, Lin::Std(..));
     let tag = lin.name().to_string();
     let flipped = matches!(lin, Lin::MinMax(lo, hi) if lo > hi);
@@ -557,7 +673,10 @@ fn op_lin(em: &mut Em, rng: &mut Rng, lin: Lin, stream: Stream, f32_too: bool) {
     flush(em, &t);
     if f32_too {
         // same shapes on f32 (values regenerated for the f32 epsilon), oracle only
-        let fit32 = gen_matrix(rng, nf, p, stream, f32::EPSILON as f64, em);
+        let mut fit32 = gen_matrix(rng, nf, p, stream, f32::EPSILON as f64, em);
+        if full_range {
+            inject_full_range(&mut fit32, 3e38, rng);
+        }
         let x32 = gen_matrix(rng, nx, p, stream, f32::EPSILON as f64, em);
         let fit32: Mat = fit32.iter().map(|r| r.iter().map(|v| *v as f32 as f64).collect()).collect();
         // rounding to f32 can move a column next to the f32 guard
@@ -567,7 +686,7 @@ fn op_lin(em: &mut Em, rng: &mut Rng, lin: Lin, stream: Stream, f32_too: bool) {
         }
         let sel32 = gen_sel(rng, x32.len());
         let tag32 = format!("{}32", lin.name());
-        let op32 = format!("#{}32 {} {} nf={} p={} fit={}", lin.name(), head, form.toks(), nf, p, show_mat(&fit32));
+        let op32 = format!("#{}32 {} {} {} nf={} p={} fit={}", lin.name(), head, form.toks(), form.wtok(nf), nf, p, show_mat(&fit32));
         let body32 = |ctx: &mut Ctx| match run_lin::<f32>(ctx, &tag32, lin, form, &fit32, p, &x32, p, &sel32, &t) {
             Err(name) => format!("err {}", name),
             Ok(_) => "ok".to_string(),
@@ -817,15 +936,15 @@ fn fit_whitener<F: Float>(method: &str, form: Form, fit: &Mat, p: usize) -> Resu
         Lay::S => {
             let b = backing::<F>(fit, p);
             let v = b.slice(s![1..(2 * fit.len() + 1);2, 1..(p + 1)]);
-            whitener(method, form.via).fit(&DatasetBase::from(v))
+            whitener(method, form.via).fit(&fit_dataset(v, form))
         }
-        lay => whitener(method, form.via).fit(&DatasetBase::from(to_arr_lay::<F>(fit, p, lay))),
+        lay => whitener(method, form.via).fit(&fit_dataset(to_arr_lay::<F>(fit, p, lay), form)),
     }))
     .map_err(|_| ())
 }
 
 /// rank / conditioning class of the training data from its two-pass covariance (in f64)
-fn whiten_conditioning(fit: &Mat, n: usize, p: usize) -> (bool, f64) {
+fn whiten_conditioning(fit: &Mat, n: usize, p: usize) -> (bool, f64, f64, f64) {
     if n >= 2 && p >= 1 {
         let ev = sym_eigvals(&cov(fit, p));
         let (lo, hi) = (ev.iter().cloned().fold(f64::INFINITY, f64::min), ev.iter().cloned().fold(0.0f64, f64::max));
@@ -833,9 +952,42 @@ fn whiten_conditioning(fit: &Mat, n: usize, p: usize) -> (bool, f64) {
         // the two-pass covariance that must not count as variance
         let ma = fit.iter().flatten().fold(0.0f64, |a, v| a.max(v.abs()));
         let cond = if lo > 0.0 { hi / lo + ma * ma / lo } else { f64::INFINITY };
-        (n > p && lo > 1e-9 * hi && lo > 1e-20 * ma * ma && lo > 0.0, cond)
+        (n > p && lo > 1e-9 * hi && lo > 1e-20 * ma * ma && lo > 0.0, cond, lo, hi)
     } else {
-        (false, f64::INFINITY)
+        (false, f64::INFINITY, 0.0, 0.0)
+    }
+}
+
+/// class suffix of the absolute `1e-8` floors (open findings): PCA clamps the singular values of the centred
+/// data, `sqrt((n-1) lambda)`, from below; ZCA clamps `1/sqrt(lambda)` from below.  Computed from the two-pass
+/// covariance eigenvalues of the training data, whatever its magnitude.
+fn floor_class(method: &str, n: usize, lo: f64, hi: f64) -> &'static str {
+    let hit = match method {
+        "pca" => ((n as f64 - 1.0) * lo).sqrt() < 1e-8,
+        "zca" => 1.0 / hi.sqrt() < 1e-8,
+        _ => false,
+    };
+    if hit {
+        ":floor=hit"
+    } else {
+        ""
+    }
+}
+
+/// the centred records exactly as `Whitener::fit` builds them (`records - &mean`, same layout / storage)
+fn centred(fit: &Mat, p: usize, lay: Lay) -> Array2<f64> {
+    match lay {
+        Lay::S => {
+            let b = backing::<f64>(fit, p);
+            let v = b.slice(s![1..(2 * fit.len() + 1);2, 1..(p + 1)]);
+            let mean = v.mean_axis(Axis(0)).unwrap();
+            &v - &mean
+        }
+        lay => {
+            let a = to_arr_lay::<f64>(fit, p, lay);
+            let mean = a.mean_axis(Axis(0)).unwrap();
+            &a - &mean
+        }
     }
 }
 
@@ -856,9 +1008,14 @@ fn judge_whitener<F: Float>(ctx: &mut Ctx, class: &str, tag: &str, method: &str,
                 worst = worst.max((c[a][b] - if a == b { 1.0 } else { 0.0 }).abs());
             }
         }
+        if class.ends_with(":floor=hit") {
+            tally(t, &format!("masked:{}:identity_cov:{}:floor_hit", tag, method));
+        }
         if tol < 0.05 {
-            tally(t, &format!("judged:{}:identity_cov:{}", tag, method));
-            tally(t, &(if tag == "whiten" { format!("cov:judged:whiten:identity_cov:{}", method) } else { format!("cov:judged:{}:identity_cov", tag) }));
+            if !class.ends_with(":floor=hit") {
+                tally(t, &format!("judged:{}:identity_cov:{}", tag, method));
+                tally(t, &(if tag == "whiten" { format!("cov:judged:whiten:identity_cov:{}", method) } else { format!("cov:judged:{}:identity_cov", tag) }));
+            }
             tally(t, &format!("margin:{}:{}:1e{}", tag, method, (worst / tol).max(1e-9).log10().ceil() as i64));
             ctx.require(worst <= tol, "whiten_identity_cov", class, || format!("covariance of the whitened training data deviates from I by {:e} (tol {:e}, cond {:e})", worst, tol, cond));
         } else {
@@ -881,16 +1038,26 @@ fn judge_whitener<F: Float>(ctx: &mut Ctx, class: &str, tag: &str, method: &str,
                 let d = match method {
                     "pca" => (0..p).map(|k| w[a][k] * w[b][k]).sum::<f64>().abs() / (rown[a] * rown[b]),
                     "zca" => (w[a][b] - w[b][a]).abs() / wmax,
-                    _ => {
-                        if a > b {
-                            w[a][b].abs() / wmax
-                        } else {
-                            0.0
-                        }
-                    }
+                    // Cholesky: triangular; which triangle is not part of the statement (L^-1 of Sigma = L L^T
+                    // whitens as well as the upper factor of Sigma^-1): judged below as min(lower part, upper part)
+                    _ => 0.0,
                 };
                 dev = dev.max(d);
             }
+        }
+        if method == "chol" {
+            let part = |lower: bool| -> f64 {
+                let mut m = 0.0f64;
+                for a in 0..p {
+                    for b in 0..p {
+                        if (lower && a > b) || (!lower && a < b) {
+                            m = m.max(w[a][b].abs() / wmax);
+                        }
+                    }
+                }
+                m
+            };
+            dev = part(true).min(part(false));
         }
         let tol = 128.0 * e * cond.max(1.0) + 65536.0 * e;
         tally(t, &format!("judged:{}:method_shape:{}", tag, method));
@@ -956,7 +1123,7 @@ fn op_whiten(em: &mut Em, rng: &mut Rng, stream: Stream, f32_too: bool, forced: 
         em.count("whiten:n1_zca_chol_not_run");
         method = "pca";
     }
-    let form = Form { via: *rng.pick(&["ctor", "ctor", "setter"]), layf: gen_lay(rng), layx: gen_lay(rng) };
+    let form = Form { via: *rng.pick(&["ctor", "ctor", "setter"]), layf: gen_lay(rng), layx: gen_lay(rng), wts: rng.chance(1, 3) };
     // contiguous columns with n >= 8: see op_lin
     let stream = if n >= 8 && (p == 1 || form.layf == Lay::F) { Stream::Lattice } else { stream };
     // whole matrix of magnitude 1e-10 or 1e9 (finite, full rank): the absolute 1e-8 floors of the PCA / ZCA branches
@@ -966,8 +1133,11 @@ fn op_whiten(em: &mut Em, rng: &mut Rng, stream: Stream, f32_too: bool, forced: 
     let x = if rng.chance(1, 4) { fit.clone() } else { gen_whiten_matrix(rng, nx, p, stream, false, extreme, em) };
     let sel = gen_sel(rng, x.len());
     em.count(&format!("whiten:{}", method));
-    let (full_rank, cond) = whiten_conditioning(&fit, n, p);
+    let (full_rank, cond, ev_lo, ev_hi) = whiten_conditioning(&fit, n, p);
     em.count(if full_rank { "whiten:full_rank" } else { "whiten:rank_deficient" });
+    if form.wts {
+        em.count("fit:weighted_dataset");
+    }
     // the external factorisation's result goes into the request
     let pre = fit_whitener::<f64>(method, form, &fit, p);
     let w: Option<Mat> = match &pre {
@@ -975,13 +1145,12 @@ fn op_whiten(em: &mut Em, rng: &mut Rng, stream: Stream, f32_too: bool, forced: 
         _ => None,
     };
     let w_ok = w.as_ref().map_or(false, |w| w.iter().flatten().all(|v| v.is_finite()) && w.iter().all(|r| r.len() == p));
-    let scale_class = match extreme {
-        Some(v) if v < 1e-9 => ":scale=1e-10",
-        Some(v) if v > 1e8 => ":scale=1e9",
-        _ => "",
-    };
+    let scale_class = if full_rank { floor_class(method, n, ev_lo, ev_hi) } else { "" };
     if let Some(v) = extreme {
         em.count(&format!("whiten:probe_magnitude={:e}", v));
+    }
+    if !scale_class.is_empty() {
+        em.count(&format!("whiten:{}{}", method, scale_class));
     }
     let class = format!("whiten:method={}:{}{}", method, if full_rank { "full_rank" } else { "rank_deficient" }, scale_class);
     let t: Tally = RefCell::new(vec![]);
@@ -989,14 +1158,28 @@ fn op_whiten(em: &mut Em, rng: &mut Rng, stream: Stream, f32_too: bool, forced: 
         // factorisation failed / non-finite / reduced shape: outside the model; only the promise on
         // full-rank data is checked
         em.count("whiten:no_usable_matrix");
-        let op = format!("#whiten_nomatrix method={} {} pf={} fit={}", method, form.toks(), p, show_mat(&fit));
+        let op = format!("#whiten_nomatrix method={} {} {} pf={} fit={}", method, form.toks(), form.wtok(n), p, show_mat(&fit));
+        // its own class: a fit that stops producing a matrix is never covered by the floor findings
+        let class_nm = format!("{}:nomatrix", class);
         em.case(op, |ctx| {
-            ctx.require(!full_rank, "whiten_identity_cov", &class, || format!("no finite p x p whitening matrix on full-rank data (cond {:e})", cond));
+            ctx.require(!full_rank, "whiten_identity_cov", &class_nm, || format!("no finite p x p whitening matrix on full-rank data (cond {:e})", cond));
             "-".to_string()
         });
     } else {
         let wm = w.unwrap_or_default();
-        let op = format!("whiten method={} {} pf={} fit={} x={} W={}", method, form.toks(), p, show_mat(&fit), show_mat(&x), show_mat(&wm));
+        // PCA: the model assembles the matrix itself from the result of the external `svd(false, true)` of the
+        // centred records (hook `svd_s_vt`: the call `Whitener::fit` makes); ZCA / Cholesky: the matrix travels
+        let factors = if method == "pca" && n > 0 {
+            match linfa_preprocessing::verif_hooks_c16::svd_s_vt(centred(&fit, p, form.layf)) {
+                Some((sv, vt)) => format!("s={} vt={}", list(sv.iter(), |v| hex64(*v)), show_mat(&to_mat(&vt))),
+                None => "s= vt=".to_string(),
+            }
+        } else if method == "pca" {
+            "s= vt=".to_string()
+        } else {
+            format!("W={}", show_mat(&wm))
+        };
+        let op = format!("whiten method={} {} {} pf={} fit={} x={} {}", method, form.toks(), form.wtok(n), p, show_mat(&fit), show_mat(&x), factors);
         let body = |ctx: &mut Ctx| {
             let res = fit_whitener::<f64>(method, form, &fit, p).unwrap_or_else(|_| panic!("fit panicked"));
             if fit.is_empty() {
@@ -1014,7 +1197,8 @@ fn op_whiten(em: &mut Em, rng: &mut Rng, stream: Stream, f32_too: bool, forced: 
             let (mean, yk) = judge_whitener::<f64>(ctx, &class, "whiten", method, &fw, &fit, &x, p, form, full_rank, cond, &sel, &t);
             // the products differ from the model only by the summation order of the matrix kernel: every
             // entry is divided by its own backward-error scale (same operations on both sides)
-            format!("ok mean={} y={}", list(mean.iter(), |v| hex64c(*v)), show_mat_c(&yk, true))
+            let wtok = if method == "pca" { format!(" W={}", show_mat_c(&to_mat(&fw.transformation_matrix().to_owned()), false)) } else { String::new() };
+            format!("ok mean={}{} y={}", list(mean.iter(), |v| hex64c(*v)), wtok, show_mat_c(&yk, true))
         };
         if n > 0 {
             em.case_valid(op, &class, body);
@@ -1029,10 +1213,11 @@ fn op_whiten(em: &mut Em, rng: &mut Rng, stream: Stream, f32_too: bool, forced: 
         let fit32 = r32(&gen_whiten_matrix(rng, n, p, stream, true, None, em));
         let x32 = r32(&gen_whiten_matrix(rng, nx, p, stream, true, None, em));
         let sel32 = gen_sel(rng, x32.len());
-        let (fr, cond32) = whiten_conditioning(&fit32, n, p);
-        let class32 = format!("whiten32:method={}:{}", method, if fr { "full_rank" } else { "rank_deficient" });
-        let op32 = format!("#whiten32 method={} {} pf={} fit={}", method, form.toks(), p, show_mat(&fit32));
-        em.case(op32, |ctx| {
+        let (fr, cond32, lo32, hi32) = whiten_conditioning(&fit32, n, p);
+        let class32 = format!("whiten32:method={}:{}{}", method, if fr { "full_rank" } else { "rank_deficient" }, if fr { floor_class(method, n, lo32, hi32) } else { "" });
+        let op32 = format!("#whiten32 method={} {} {} pf={} fit={}", method, form.toks(), form.wtok(n), p, show_mat(&fit32));
+        // a promise (n >= 2): a panic of the f32 fit's transform is an oracle failure (audit 2, item 6)
+        em.case_valid(op32, &class32, |ctx| {
             let fw = match fit_whitener::<f32>(method, form, &fit32, p) {
                 Ok(Ok(fw)) => fw,
                 _ => {
@@ -1202,8 +1387,8 @@ fn witnesses(em: &mut Em) {
         };
         let approx = matches!(lin, Lin::Std(..));
         let t2 = tiny.clone();
-        let form = Form { via: "ctor", layf: Lay::C, layx: Lay::C };
-        em.case_valid(format!("{} {} pf=1 fit={} px=1 x={}", head, form.toks(), show_mat(&t2), show_mat(&t2)), lin.name(), |ctx| match run_lin::<f64>(ctx, lin.name(), lin, form, &t2, 1, &t2, 1, &[2, 0], &RefCell::new(vec![])) {
+        let form = Form { via: "ctor", layf: Lay::C, layx: Lay::C, wts: false };
+        em.case_valid(format!("{} {} {} pf=1 fit={} px=1 x={}", head, form.toks(), form.wtok(3), show_mat(&t2), show_mat(&t2)), lin.name(), |ctx| match run_lin::<f64>(ctx, lin.name(), lin, form, &t2, 1, &t2, 1, &[2, 0], &RefCell::new(vec![])) {
             Err(name) => format!("err {}", name),
             Ok(o) => format!(
                 "ok off={} sc={} y={}",
@@ -1234,7 +1419,8 @@ pub fn run(em: &mut Em, rng: &mut Rng) {
     for _ in 0..(4 * scale) {
         for method in ["pca", "zca", "chol"] {
             // 1e-10 / 1e9: beyond the absolute floors (open findings); 1e-6 .. 1e6: well inside, must whiten
-            for mag in [1e-10, 1e9, 1e-6, 1e-5, 1e6] {
+            // 1e-7 / 3e7: just inside the floors (singular values resp. 1/sqrt(eigenvalue) between 1e-8 and 1e-7)
+            for mag in [1e-10, 1e9, 1e-7, 1e-6, 1e-5, 1e6, 3e7] {
                 op_whiten(em, rng, Stream::Generic, false, Some((method, mag)));
             }
         }
@@ -1242,4 +1428,5 @@ pub fn run(em: &mut Em, rng: &mut Rng) {
     for _ in 0..(150 * scale) {
         op_ds(em, rng);
     }
+    ceilings(em);
 }
